@@ -458,7 +458,7 @@ func ruleConfirmedOnly(w *core.World, r *core.Report) {
 			if !ok {
 				return
 			}
-			last := ret.Results[len(ret.Results)-1]
+			last := core.RetVal(ret, len(ret.Results)-1)
 			if !core.IsNilConst(p.Resolve(last)) {
 				return
 			}
